@@ -616,6 +616,55 @@ theorem not_sound_without_monotone :
 
 end Examples
 
+theorem monotoneTuning_snoc_flush (a : List (ZOp ν)) (h : monotoneTuning a = true) :
+    monotoneTuning (a ++ [.flush]) = true := by
+  induction a with
+  | nil => simp [monotoneTuning]
+  | cons o r ih =>
+    rcases o with ⟨t, v⟩ | _
+    · cases t
+      · simp only [List.cons_append, monotoneTuning, Bool.and_eq_true, List.all_append] at h ⊢
+        exact ⟨⟨h.1, by simp⟩, ih h.2⟩
+      · simp only [List.cons_append, monotoneTuning] at h ⊢
+        exact ih h
+    · simp only [List.cons_append, monotoneTuning] at h ⊢
+      exact ih h
+
+/-- **C15 / finalize is exact**: after `finalize` each array holds, at EVERY index, exactly the
+    recorded value — the recorded ones are all there (`finalize_complete`) and nothing is readable
+    beyond them (no stale or padding cell is exposed). -/
+theorem finalize_exact (chunk : Nat) (hc : 1 ≤ chunk) (ops : List (ZOp ν))
+    (hm : monotoneTuning ops = true) :
+    let s := ((ZSt.init chunk).run ops).finalize
+    (∀ i, s.warm i = (recordedWarm ops)[i]?) ∧ (∀ i, s.samp i = (recordedSamp ops)[i]?) := by
+  have hm' := monotoneTuning_snoc_flush ops hm
+  have hs := store_sound chunk hc (ops ++ [.flush]) hm'
+  have hf := finalize_complete chunk hc ops hm
+  have hrun : (ZSt.init chunk).run (ops ++ [.flush]) = ((ZSt.init chunk).run ops).flush := by
+    simp [ZSt.run, ZSt.step]
+  have hw : recordedWarm (ops ++ [.flush]) = recordedWarm ops := by
+    rw [recordedWarm_append]; simp [recordedWarm]
+  have hsa : recordedSamp (ops ++ [.flush]) = recordedSamp ops := by
+    rw [recordedSamp_append]; simp [recordedSamp]
+  simp only [hrun, hw, hsa] at hs
+  have ew : (((ZSt.init chunk).run ops).finalize).warm = (((ZSt.init chunk).run ops).flush).warm := rfl
+  have es : (((ZSt.init chunk).run ops).finalize).samp = (((ZSt.init chunk).run ops).flush).samp := rfl
+  refine ⟨fun i => ?_, fun i => ?_⟩
+  · by_cases hi : i < (recordedWarm ops).length
+    · exact hf.1 i hi
+    · show (((ZSt.init chunk).run ops).finalize).warm i = _
+      rw [ew]
+      cases hv : (((ZSt.init chunk).run ops).flush).warm i with
+      | none => simp [List.getElem?_eq_none (Nat.le_of_not_lt hi)]
+      | some v => exact (hs.1 i v hv).symm
+  · by_cases hi : i < (recordedSamp ops).length
+    · exact hf.2 i hi
+    · show (((ZSt.init chunk).run ops).finalize).samp i = _
+      rw [es]
+      cases hv : (((ZSt.init chunk).run ops).flush).samp i with
+      | none => simp [List.getElem?_eq_none (Nat.le_of_not_lt hi)]
+      | some v => exact (hs.2 i v hv).symm
+
 end NutsModel.C15
 
 section AxiomAudit
